@@ -3581,12 +3581,12 @@ class State:
 
             if not self.card_burning_status:
                 if Automation.HOLE_DEALING in self.automations:
-                    while any(self.hole_dealing_statuses):
+                    while self.hole_dealee_index is not None:
                         self.deal_hole()
 
                 if (
                         Automation.BOARD_DEALING in self.automations
-                        and any(self.board_dealing_counts)
+                        and self.board_dealing_count is not None
                 ):
                     self.deal_board()
 
